@@ -75,6 +75,38 @@ func rangeElemOf(v ssa.Value, params ssa.Value) (*ssa.BasicBlock, ssa.Value, boo
 // rangeIndexHeader recognises idx = phi(-1, idx) + 1 guarded by idx < len(X)
 // and returns the loop header block (whose false edge is the loop exit).
 func rangeIndexHeader(idx ssa.Value, X ssa.Value) (*ssa.BasicBlock, bool) {
+	// the same loop written with an explicit counter: for i := 0; i < len(X); i++ { … X[i] … }
+	if p, ok := idx.(*ssa.Phi); ok {
+		zero, step := false, false
+		for _, e := range p.Edges {
+			if c, okc := constInt(e); okc {
+				if c != 0 {
+					return nil, false
+				}
+				zero = true
+			} else if bo, okb := e.(*ssa.BinOp); okb && bo.Op == token.ADD && bo.X == ssa.Value(p) {
+				if one, ok1 := constInt(bo.Y); !ok1 || one != 1 {
+					return nil, false
+				}
+				step = true
+			} else {
+				return nil, false
+			}
+		}
+		hdr := p.Block()
+		if !zero || !step || len(hdr.Instrs) == 0 {
+			return nil, false
+		}
+		iff, okIf := hdr.Instrs[len(hdr.Instrs)-1].(*ssa.If)
+		if !okIf {
+			return nil, false
+		}
+		cmp, okc := iff.Cond.(*ssa.BinOp)
+		if !okc || cmp.Op != token.LSS || cmp.X != ssa.Value(p) || !isLenOf(cmp.Y, X) {
+			return nil, false
+		}
+		return hdr, true
+	}
 	inc, ok := idx.(*ssa.BinOp)
 	if !ok || inc.Op != token.ADD {
 		return nil, false
